@@ -305,6 +305,9 @@ func (r *R) Finish() {
 	if s.Samples == nil {
 		s.Samples = []any{}
 	}
+	if s.Violations == nil {
+		s.Violations = []*Violation{}
+	}
 	if r.exportD {
 		for h := range r.distinct {
 			s.DistinctHashes = append(s.DistinctHashes, hex.EncodeToString(h[:]))
